@@ -293,6 +293,21 @@ func Yield(site string) {
 	s.Yield(site)
 }
 
+// AdoptFunc wraps the function handed to singleflight: when the library runs it on a goroutine of
+// its own (DoChan), that goroutine registers as a task for the duration of the call; when it runs
+// on the caller (Do), the caller is a task already and nothing changes.
+func AdoptFunc(site string, fn func() (any, error)) func() (any, error) {
+	return func() (any, error) {
+		s := active.Load()
+		if s == nil || s.draining.Load() || s.cur() != nil {
+			return fn()
+		}
+		leave := s.Adopt(s.UniqueName("sf:"+site), true)
+		defer leave()
+		return fn()
+	}
+}
+
 // After is a yield point between the evaluation of v and its use inside one statement
 // (inserted by the instrumenter around a read whose value feeds another call).
 func After[T any](site string, v T) T {
